@@ -31,6 +31,16 @@ var richCfg = func() gen.Cfg {
 
 func drawText(t *rapid.T) TextCase {
 	v := richCfg.Value(4).Draw(t, "v")
+	if gen.OneIn(t, 25, "deep") {
+		// nesting beyond any fixed-size table of indentation or state (17 ... 70 levels)
+		for i, n := 0, gen.Uniform(t, 15, 70, "deepn"); i < n; i++ {
+			if (i+n)%3 == 0 {
+				v = ref.ObjOf("k", v, "z", ref.Num("1"))
+			} else {
+				v = ref.Arr(ref.Num("0"), v)
+			}
+		}
+	}
 	if gen.OneIn(t, 3, "plain") {
 		return TextCase{Text: []byte(v.Text(rapid.Bool().Draw(t, "esc")))}
 	}
